@@ -535,7 +535,52 @@ func (r *runner) batch(n int, allowStop bool) {
 	r.par(ops)
 }
 
+// genClientControl: the client's own control calls in every state of the client: Dial before Start
+// (refused: no event loop), Dial while running, Client.Stop, then Dial and a further Client.Stop on the
+// stopped client (both refused, nothing touched)
+func genClientControl(rnd *tr.Rand, w *tr.Writer, id string) {
+	cfg := caseCfg{client: true, nloops: rnd.Pick([]int{1, 2}), ticker: rnd.Chance(30), et: rnd.Chance(40), proto: "tcp", nlis: 1, nusers: 4}
+	w.Hist("variant-client")
+	runCase(w, id, cfg, func(r *runner) {
+		r.rnd = rnd
+		w.Tag("phase-client")
+		for i := rnd.Intn(3); i > 0; i-- {
+			r.do("call", tr.I(rnd.Intn(2)), "dial", "0", "none", "0", "none")
+			w.Tag("client-dial-before-start")
+		}
+		if rnd.Chance(15) {
+			// a client that is never started at all
+			r.do("finish")
+			return
+		}
+		r.do("boot", "none")
+		for i := rnd.Intn(3); i > 0; i-- {
+			r.do("call", tr.I(rnd.Intn(2)), "dial", "0", "none", "0", "none")
+		}
+		r.trafficSome(rnd.Intn(2))
+		r.do("call", "2", "clistop") // not stopped yet: not issued (disabled)
+		r.do("clientstop")
+		r.do("poke")
+		for i := rnd.Range(1, 4); i > 0; i-- {
+			if rnd.Chance(50) {
+				r.do("call", tr.I(rnd.Intn(3)), "dial", "0", "none", "0", "none")
+				w.Tag("client-dial-after-stop")
+			} else {
+				r.do("call", tr.I(rnd.Intn(3)), "clistop")
+				w.Tag("client-stop-twice")
+			}
+		}
+		r.do("call", "1", "validate")
+		r.do("probe")
+		r.do("finish")
+	})
+}
+
 func genControl(rnd *tr.Rand, w *tr.Writer, id string) {
+	if rnd.Chance(10) {
+		genClientControl(rnd, w, id)
+		return
+	}
 	cfg := genCfg(rnd)
 	if cfg.proto == "udp" && rnd.Chance(60) {
 		cfg.proto = "tcp"
